@@ -337,6 +337,7 @@ func (m *clientHelloMsg) MakeLog() *ClientHello {
 
 	if len(m.sessionTicket) > 0 {
 		ch.SessionTicket = new(SessionTicket)
+		ch.SessionTicket.Value = make([]uint8, len(m.sessionTicket))
 		copy(ch.SessionTicket.Value, m.sessionTicket)
 		ch.SessionTicket.Length = len(m.sessionTicket)
 		ch.SessionTicket.LifetimeHint = 0 // Clients don't send
